@@ -79,6 +79,47 @@ func (r *VRec) KidsArea() int64 {
 	return t
 }
 
+// Four levels of anonymous embedding, several fields per level.
+type VD4 struct {
+	Low  int64 `json:"low"`
+	High int64 `json:"high"`
+	Step int64 `json:"step"`
+}
+type VD3 struct {
+	VD4
+	C1 int64 `json:"c1"`
+	C2 int64 `json:"c2"`
+}
+type VD2 struct {
+	VD3
+	B1 int64 `json:"b1"`
+	B2 int64 `json:"b2"`
+}
+type VDeep struct {
+	VD2
+	A1 int64 `json:"a1"`
+	A2 int64 `json:"a2"`
+}
+
+func (r *VDeep) Self() *VDeep         { return r }
+func (r *VDeep) Echo(x *VDeep) *VDeep { return x }
+
+// An outer struct that declares Go field names its embedded struct also has
+// (different json tags), and an embedded pointer-free struct below it.
+type VShBase struct {
+	ID   int64  `json:"base_id"`
+	Name string `json:"base_name"`
+	Only int64  `json:"only"`
+}
+type VShadow struct {
+	VShBase
+	ID   int64  `json:"id"`
+	Name string `json:"name"`
+}
+
+func (r *VShadow) Self() *VShadow           { return r }
+func (r *VShadow) Echo(x *VShadow) *VShadow { return x }
+
 // VFlat has only the field kinds that FillHashFromShadow renders.
 type VFlat struct {
 	A int64   `json:"a"`
@@ -107,6 +148,12 @@ func init() {
 	gsr.RegisterUserdef(&RegisteredType{GenDefMap: true, Factory: func(env *Zlisp, h *SexpHash) (interface{}, error) {
 		return &VFlat{}, nil
 	}}, true, "vflat")
+	gsr.RegisterUserdef(&RegisteredType{GenDefMap: true, Factory: func(env *Zlisp, h *SexpHash) (interface{}, error) {
+		return &VDeep{}, nil
+	}}, true, "vdeep")
+	gsr.RegisterUserdef(&RegisteredType{GenDefMap: true, Factory: func(env *Zlisp, h *SexpHash) (interface{}, error) {
+		return &VShadow{}, nil
+	}}, true, "vshadow")
 }
 
 var vC10EnvPool [2]*Zlisp
@@ -806,4 +853,259 @@ func vh_C10_time() {
 		vAssert(vC10Same(env, vC10Hash(env, "x"), back), "time-field-comes-back-equal")
 	}
 	vReach("time")
+}
+
+// vh_C10_demo: the repository's demo structs (snoopy, hornet, hellcat,
+// plane, weather, eventdemo, persondemo, setOfPlanes) with symbolic contents:
+// fields reached through two levels of embedding (Snoopy.Plane.Wings.SpanCm),
+// an []int field, interface-typed fields and slices holding other registered
+// structs with sharing, a by-value nested struct (Event.User), and the
+// repository's own identity method (EchoWeather).
+func vh_C10_demo() {
+	vFormatOpaque(true)
+	env := vC10Env(0)
+	k := vChoice("case", 4)
+	switch k {
+	case 0:
+		speed, id, span := vC10Small("speed"), vC10Small("id"), vC10Small("span")
+		nick := vC10Str("nick", 2)
+		mass := &SexpFloat{Val: vFloat64("mass")}
+		vAssume(mass.Val == mass.Val)
+		cry := vC10Str("cry", 2)
+		p0, p1 := vC10Small("p0"), vC10Small("p1")
+		sspeed, sspan := vC10Small("sspeed"), vC10Small("sspan")
+		forms := vT(env, `(def he (hellcat speed:9001 id:9002))
+(def ho (hornet SpanCm:9003 nickname:9004 mass:9005))
+(def sn (snoopy cry:9006 pack:[9007 9008] chld:he friends:[he ho] carrying:[ho] speed:9009 SpanCm:9010))`,
+			speed, id, span, nick, mass, cry, p0, p1, sspeed, sspan)
+		if _, ok := vC10Run(env, forms); !ok {
+			vAssert(false, "record-builds")
+			return
+		}
+		vMapOrder(true, 3)
+		_, err, p := vEvalString(env, `(togo sn)`)
+		vMapOrder(false, 0)
+		vAssert(!p && err == nil, "snoopy-with-shared-friends-converts")
+		if p || err != nil {
+			return
+		}
+		g, isSn := vC10Hash(env, "sn").GoShadowStruct.(*Snoopy)
+		if !isSn || g == nil {
+			vAssert(false, "record-has-its-go-struct-attached")
+			return
+		}
+		vAssert(g.Cry == cry.S && int64(g.Speed) == sspeed.Val && int64(g.SpanCm) == sspan.Val, "fields-through-embedded-structs-filled-exactly")
+		vAssert(len(g.Pack) == 2 && int64(g.Pack[0]) == p0.Val && int64(g.Pack[1]) == p1.Val, "int-slice-field-filled-exactly")
+		he, isHe := g.Chld.(*Hellcat)
+		vAssert(isHe && he != nil && int64(he.Speed) == speed.Val && int64(he.ID) == id.Val, "interface-field-holds-the-registered-struct")
+		if len(g.Friends) != 2 || len(g.Carrying) != 1 {
+			vAssert(false, "interface-slices-have-the-record's-length")
+			return
+		}
+		ho, isHo := g.Friends[1].(*Hornet)
+		vAssert(isHo && ho != nil && int64(ho.SpanCm) == span.Val && ho.Nickname == nick.S && ho.Mass == mass.Val, "slice-of-interfaces-holds-the-registered-structs")
+		f0, _ := g.Friends[0].(*Hellcat)
+		c0, _ := g.Carrying[0].(*Hornet)
+		vAssert(f0 == he && c0 == ho, "a-record-referenced-twice-is-one-go-object")
+		back, ok := vC10Back(env, `(_method sn GetCry:)`)
+		bs, isStr := back.(*SexpStr)
+		vAssert(ok && isStr && bs.S == cry.S, "method-sees-the-record's-field-value")
+	case 1:
+		id := vC10Small("id")
+		first, last, flight, pilot := vC10Str("first", 2), vC10Str("last", 2), vC10Str("flight", 2), vC10Str("pilot", 2)
+		canc := &SexpBool{Val: vBool("canc")}
+		forms := vT(env, `(def ev (eventdemo id:9001 user:(persondemo first:9002 last:9003) flight:9004 pilot:[9005 "co"] cancelled:9006))`,
+			id, first, last, flight, pilot, canc)
+		if _, ok := vC10Run(env, forms); !ok {
+			vAssert(false, "record-builds")
+			return
+		}
+		_, err, p := vEvalString(env, `(togo ev)`)
+		vAssert(!p && err == nil, "event-with-a-nested-person-converts")
+		if p || err != nil {
+			return
+		}
+		g, isEv := vC10Hash(env, "ev").GoShadowStruct.(*Event)
+		vAssert(isEv && g != nil && int64(g.Id) == id.Val && g.User.First == first.S && g.User.Last == last.S && g.Flight == flight.S &&
+			len(g.Pilot) == 2 && g.Pilot[0] == pilot.S && g.Pilot[1] == "co" && g.Cancelled == canc.Val, "event-fields-and-by-value-person-filled-exactly")
+	case 2:
+		size := &SexpInt{Val: vInt64("size")}
+		typ := vC10Str("typ", 2)
+		det := &SexpRaw{Val: vBytes("det", 2)}
+		forms := vT(env, `(def w (weather size:9001 type:9002 details:9003)) (def sn (snoopy cry:"x"))`, size, typ, det)
+		if _, ok := vC10Run(env, forms); !ok {
+			vAssert(false, "record-builds")
+			return
+		}
+		back, ok := vC10Back(env, `(_method sn EchoWeather: w)`)
+		vAssert(ok, "method-returning-a-registered-struct-succeeds")
+		if ok {
+			vAssert(vC10Same(env, vC10Hash(env, "w"), back), "struct-handed-back-is-the-same-record")
+		}
+	case 3:
+		s1, s2 := vC10Small("s1"), vC10Small("s2")
+		forms := vT(env, `(def he (hellcat speed:9001)) (def ho (hornet speed:9002)) (def fleet (setOfPlanes flyers:[he ho he]))`, s1, s2)
+		if _, ok := vC10Run(env, forms); !ok {
+			vAssert(false, "record-builds")
+			return
+		}
+		_, err, p := vEvalString(env, `(togo fleet)`)
+		vAssert(!p && err == nil, "set-of-planes-converts")
+		if p || err != nil {
+			return
+		}
+		g, isSet := vC10Hash(env, "fleet").GoShadowStruct.(*SetOfPlanes)
+		if !isSet || g == nil || len(g.Flyers) != 3 {
+			vAssert(false, "set-of-planes-has-three-flyers")
+			return
+		}
+		a, _ := g.Flyers[0].(*Hellcat)
+		b, _ := g.Flyers[1].(*Hornet)
+		c, _ := g.Flyers[2].(*Hellcat)
+		vAssert(a != nil && b != nil && int64(a.Speed) == s1.Val && int64(b.Speed) == s2.Val, "slice-of-interfaces-holds-the-registered-structs")
+		vAssert(a == c, "a-record-referenced-twice-is-one-go-object")
+	}
+	vReachIdx("demo-case", k, 4)
+}
+
+// vh_C10_embedded: fields at every level of a four-deep chain of embedded
+// structs, and an outer struct whose field names shadow those of the struct
+// it embeds: every entry lands in its own Go field, and every Go field comes
+// back under its own key.  Contents symbolic and pairwise unconstrained, so a
+// value ending up in a neighbouring slot is a counterexample.
+func vh_C10_embedded() {
+	vFormatOpaque(true)
+	env := vC10Env(0)
+	k := vChoice("shape", 2)
+	route := vChoice("route", 3)
+	var v [9]*SexpInt
+	for i := range v {
+		v[i] = &SexpInt{Val: vInt64("v" + string(rune('0'+i)))}
+	}
+	switch k {
+	case 0:
+		forms := vT(env, `(def x (vdeep low:9001 high:9002 step:9003 c1:9004 c2:9005 b1:9006 b2:9007 a1:9008 a2:9009)) (def o (vdeep a1:1))`,
+			v[0], v[1], v[2], v[3], v[4], v[5], v[6], v[7], v[8])
+		if _, ok := vC10Run(env, forms); !ok {
+			vAssert(false, "record-builds")
+			return
+		}
+	case 1:
+		nm, bn := vC10Str("nm", 2), vC10Str("bn", 2)
+		forms := vT(env, `(def x (vshadow id:9001 base_id:9002 only:9003 name:9004 base_name:9005)) (def o (vshadow id:1))`,
+			v[0], v[1], v[2], nm, bn)
+		if _, ok := vC10Run(env, forms); !ok {
+			vAssert(false, "record-builds")
+			return
+		}
+	}
+	x := vC10Hash(env, "x")
+	switch route {
+	case 0:
+		_, err, p := vEvalString(env, `(togo x)`)
+		vAssert(!p && err == nil, "record-with-embedded-struct-fields-converts")
+		if p || err != nil {
+			return
+		}
+		if k == 0 {
+			g, ok := x.GoShadowStruct.(*VDeep)
+			vAssert(ok && g != nil && g.Low == v[0].Val && g.High == v[1].Val && g.Step == v[2].Val && g.C1 == v[3].Val && g.C2 == v[4].Val &&
+				g.B1 == v[5].Val && g.B2 == v[6].Val && g.A1 == v[7].Val && g.A2 == v[8].Val, "every-level-of-embedding-filled-exactly")
+		} else {
+			g, ok := x.GoShadowStruct.(*VShadow)
+			vAssert(ok && g != nil && g.ID == v[0].Val && g.VShBase.ID == v[1].Val && g.Only == v[2].Val, "shadowed-and-shadowing-fields-filled-exactly")
+		}
+	case 1:
+		back, ok := vC10Back(env, `(_method x Self:)`)
+		vAssert(ok, "method-returning-a-struct-with-embedded-fields-succeeds")
+		if ok {
+			vAssert(vC10Same(env, x, back), "embedded-struct-fields-come-back-under-their-own-keys")
+		}
+	case 2:
+		back, ok := vC10Back(env, `(_method o Echo: x)`)
+		vAssert(ok, "method-returning-a-struct-with-embedded-fields-succeeds")
+		if ok {
+			vAssert(vC10Same(env, x, back), "embedded-struct-fields-come-back-under-their-own-keys")
+		}
+	}
+	vReachIdx("embedded-shape", k, 2)
+}
+
+// vh_C10_history: a record that already has a Go struct attached (it went
+// through togo, was a method argument before, or came back from a method) is
+// changed by the script and converted again: the conversion uses the record's
+// current entries - new values arrive, an entry the struct cannot take is
+// reported.  (A receiver keeps its attached struct by design: the Go object
+// is the live one; that route is not part of this harness.)
+func vh_C10_history() {
+	vFormatOpaque(true)
+	env := vC10Env(0)
+	first := vChoice("first", 4)
+	change := vChoice("change", 4)
+	again := vChoice("again", 2)
+	n1, n2 := &SexpInt{Val: vInt64("n1")}, &SexpInt{Val: vInt64("n2")}
+	if _, ok := vC10Run(env, vT(env, `(def x (vleaf name:"a" num:9001)) (def o (vrec i:1)) (def nv 9002)`, n1, n2)); !ok {
+		vAssert(false, "record-builds")
+		return
+	}
+	var pre string
+	switch first {
+	case 0:
+		pre = `(def unused 0)`
+	case 1:
+		pre = `(togo x)`
+	case 2:
+		pre = `(_method o EchoLeaf: x)`
+	case 3:
+		pre = `(def x (aget (_method o EchoLeaf: x) 0))`
+	}
+	if _, err, p := vEvalString(env, pre); p || err != nil {
+		vAssert(false, "first-conversion-succeeds")
+		return
+	}
+	var chg string
+	switch change {
+	case 0:
+		chg = `(hset x num: nv)`
+	case 1:
+		chg = `(hset x name: "b")`
+	case 2:
+		chg = `(hset x bogus: 1)`
+	case 3:
+		chg = `(hset x num: "seven")`
+	}
+	if _, err, p := vEvalString(env, chg); p || err != nil {
+		vAssert(false, "record-can-be-changed")
+		return
+	}
+	bad := change >= 2
+	if again == 0 {
+		_, err, p := vEvalString(env, `(togo x)`)
+		vAssert(!p, "no-panic-escapes")
+		if bad {
+			vAssert(p || err != nil, "entry-the-struct-cannot-take-is-reported-after-a-change")
+		} else {
+			vAssert(!p && err == nil, "changed-record-converts-again")
+			if !p && err == nil {
+				g, ok := vC10Hash(env, "x").GoShadowStruct.(*VLeaf)
+				switch change {
+				case 0:
+					vAssert(ok && g != nil && g.Num == n2.Val && g.Name == "a", "go-struct-holds-the-record's-current-values")
+				case 1:
+					vAssert(ok && g != nil && g.Num == n1.Val && g.Name == "b", "go-struct-holds-the-record's-current-values")
+				}
+			}
+		}
+	} else {
+		back, ok := vC10Back(env, `(_method o EchoLeaf: x)`)
+		if bad {
+			vAssert(!ok, "entry-the-struct-cannot-take-is-reported-after-a-change")
+		} else {
+			vAssert(ok, "changed-record-passes-as-an-argument")
+			if ok {
+				vAssert(vC10Same(env, vC10Hash(env, "x"), back), "go-method-sees-the-record's-current-values")
+			}
+		}
+	}
+	vReach("history")
 }
